@@ -441,7 +441,23 @@ func convertNumber(v reflect.Value, typ reflect.Type) (reflect.Value, bool) {
 	if back := res.Convert(v.Type()); back.Interface() != v.Interface() {
 		return reflect.Value{}, false
 	}
+	// Between a signed and an unsigned type of the same size a conversion
+	// there and back gives the same bits although the number changed sign.
+	if isNegative(res) != isNegative(v) {
+		return reflect.Value{}, false
+	}
 	return res, true
+}
+
+// isNegative reports whether the number held by v is less than zero.
+func isNegative(v reflect.Value) bool {
+	switch v.Kind() {
+	case reflect.Int, reflect.Int8, reflect.Int16, reflect.Int32, reflect.Int64:
+		return v.Int() < 0
+	case reflect.Float32, reflect.Float64:
+		return v.Float() < 0
+	}
+	return false
 }
 
 // mapKey returns attr as a value that can be used to index a map with keys of
